@@ -137,7 +137,12 @@ namespace occa {
   void device::setup(const occa::json &props) {
     free();
 
-    const std::string mode_ = props["mode"];
+    // Mode names are matched case-insensitively and an unavailable mode falls
+    // back to Serial, so the mode-specific entries ("modes/<mode>") have to be
+    // selected with the name of the mode that is actually used (the name
+    // mode() reports), not with the spelling found in the properties
+    mode_t *deviceMode = getModeFromProps(props);
+    const std::string mode_ = deviceMode->name();
 
     occa::json deviceProps = (
       getObjectSpecificProps(mode_, "device", settings())
@@ -148,7 +153,7 @@ namespace occa {
     deviceProps["memory"] = initialObjectProps(mode_, "memory", props);
     deviceProps["stream"] = initialObjectProps(mode_, "stream", props);
 
-    setModeDevice(occa::newModeDevice(deviceProps));
+    setModeDevice(deviceMode->newDevice(deviceProps));
 
     // Create an initial stream
     setStream(createStream());
